@@ -140,6 +140,8 @@ func getReflectType(abiTypeName string, inputABI abi.ABI, typeCache map[string]r
 		return reflect.TypeOf(int32(0)), nil
 	case "int64":
 		return reflect.TypeOf(int64(0)), nil
+	case "bool":
+		return reflect.TypeOf(false), nil
 	case "Address":
 		return reflect.TypeOf(codec.Address{}), nil
 	default:
